@@ -177,3 +177,19 @@ Proof.
   unfold none_failedb, none_failed. intros H t a Ha Hk Hte. apply bool_decide_eq_true in H.
   destruct (H t a Ha) as [?|[?|[?|?]]]; [done|congruence|by left|by right].
 Qed.
+
+(* C01 at system level, any mode: what a target has RECORDED as available is available, unless the out-of-date notice that
+   says otherwise is already waiting in its inbox *)
+Lemma recorded_available (g : graph) (roots : list tid) (w : bool) (rank : tid -> nat) :
+  (forall t k deps d, g !! t = Some (k, deps) -> d ∈ deps -> is_Some (g !! d)) ->
+  (forall t k deps d, g !! t = Some (k, deps) -> d ∈ deps -> rank d < rank t) ->
+  forall s, reachable true w g roots s -> ph s = PRun ->
+  forall R aR d ad k, actors s !! R = Some aR -> actors s !! d = Some ad -> own ad k -> ATarget R ∈ reqs ad k ->
+    d ∉ unav aR k -> availb ad k = true \/ MInvalidated k d ∈ inb (inbox s) R.
+Proof.
+  intros Hclosed Hrank s Hr Hp R aR d ad k HR Hd Ho Hreq Hn.
+  pose proof (latest_word_tracks_availability g roots w rank Hclosed Hrank s Hr Hp R aR d ad k HR Hd Ho Hreq) as Hv.
+  unfold view in Hv. destruct (lastw (inb (inbox s) R) k d) as [b|] eqn:E.
+  - destruct b; [by left|]. right. destruct (lastw_some _ _ _ _ E) as (m & Hin & Hw). by apply mword_inval in Hw as ->.
+  - left. rewrite <- Hv. by apply bool_decide_eq_true.
+Qed.
